@@ -8,6 +8,10 @@ SPEC = {
                      "star_d3": {"quick": 300, "thorough": 3000}, "star_d4": {"quick": 541, "thorough": 2705},
                      "rand_lo": {"quick": 1500, "thorough": 60000}, "rand_hi": {"quick": 400, "thorough": 12000}},
          "chunk": 10},
+        {"name": "locate_fk", "src": ["c20_locate.cpp"], "variant": "asan",
+         "configs": {"fk_identity": {"quick": 400, "thorough": 20000}, "fk_affine": {"quick": 400, "thorough": 20000}}, "chunk": 10},
+        {"name": "locate_cox", "src": ["c20_locate.cpp"], "variant": "asan", "defs": ["C20_COX"],
+         "configs": {"coxeter": {"quick": 400, "thorough": 20000}}, "chunk": 10},
     ],
     "floors": {"quick": {}, "thorough": {}},
     "exhaustive": {"quick": False, "thorough": False},
